@@ -46,7 +46,7 @@ def _work(job):
         from pyvc.contracts import REG
         e = Engine()
         con = REG.contracts.get(target)
-        e.fp_mode = bool(con and getattr(con, "note", "") == "fp")
+        e.fp_mode = bool(con and (getattr(con, "fp", False) or getattr(con, "note", "") == "fp"))
         try:
             obs = e.verify_function(target) if kind == "fn" else e.verify_lemma(target)
         except EngineError as ex:
@@ -178,7 +178,7 @@ def try_replay(e, mod, target, kind, ob, seed, oids=None):
         try:
             if "self" in args and not getattr(mod, "NATIVE", {}).get(target):
                 slf = args.pop("self")
-                meth = target.split(":")[1].rsplit(".", 1)[1]
+                meth = target.split("@")[0].split(":")[1].rsplit(".", 1)[1]
                 bound = getattr(slf, meth)
                 info = rp.native_check(target, con, {**args, "self": slf}, lambda self=None, **kw: bound(**kw))
             else:
